@@ -258,7 +258,9 @@ func commitWith(env *hx.Env, diamondID string, mode model.ConflictMode, order []
 		err error
 	}
 	done := make(chan out, 1)
+	returned := make(chan struct{})
 	go func() {
+		defer close(returned)
 		var copts []core.Option
 		if batch > 0 {
 			copts = append(copts, core.BatchSize(batch))
@@ -277,7 +279,10 @@ func commitWith(env *hx.Env, diamondID string, mode model.ConflictMode, order []
 	// wait for all file list reads to be parked, then release in order
 	var o out
 	finished := false
-	waiting := gate.WaitArrivals(n, 10*time.Second)
+	waiting := gate.WaitArrivalsIdle(n, 10*time.Second, 1500*time.Millisecond, returned)
+	if len(waiting) != n {
+		stats.Count("arrival_order_not_enforced", 1)
+	}
 	if len(waiting) == n {
 		keyOf := map[string]string{}
 		for _, k := range waiting {
